@@ -224,6 +224,11 @@ func (r *Reconciler) applyStrategy(logger logr.Logger, daemonset *datadoghqv1alp
 		conditions.UpdateExtendedDaemonSetReplicaSetStatusCondition(strategyParams.NewStatus, now, datadoghqv1alpha1.ConditionTypeCanaryFailed, corev1.ConditionFalse, "", "", false, false)
 		strategyResult, err = strategy.ManageDeployment(r.client, daemonset, strategyParams, now)
 	case strategy.ReplicaSetStatusCanary:
+		if strategyParams.Strategy.Canary == nil {
+			// the canary strategy was removed from the spec while the status still names this replicaset as the canary:
+			// nothing to manage until the ExtendedDaemonSet controller has updated the status
+			return &strategy.Result{}, errors.New("canary replicaset without a canary strategy in the ExtendedDaemonSet spec")
+		}
 		conditions.UpdateExtendedDaemonSetReplicaSetStatusCondition(strategyParams.NewStatus, now, datadoghqv1alpha1.ConditionTypeCanary, corev1.ConditionTrue, "", "", false, false)
 		conditions.UpdateExtendedDaemonSetReplicaSetStatusCondition(strategyParams.NewStatus, now, datadoghqv1alpha1.ConditionTypeActive, corev1.ConditionFalse, "", "", false, false)
 		logger.Info("manage canary deployment")
